@@ -26,13 +26,14 @@ namespace ThermoVerif.ReactionAlgebra
 
 inductive Err
   | valueError | zeroDiv | runtimeError | typeError | indexError
+  | undefinedChemical   -- `UndefinedChemicalAlias`: a chemical that is needed is missing from the package
   | badRef      -- protocol error: the id does not name an object of the required kind
   | badParam    -- an external parameter (set iteration order of `reduce`) fails its hypothesis
   deriving DecidableEq, Repr
 
 def Err.toString : Err → String
   | .valueError => "ValueError" | .zeroDiv => "ZeroDivisionError" | .runtimeError => "RuntimeError"
-  | .typeError => "TypeError" | .indexError => "IndexError" | .badRef => "badRef" | .badParam => "badParam"
+  | .typeError => "TypeError" | .indexError => "IndexError" | .undefinedChemical => "UndefinedChemicalAlias" | .badRef => "badRef" | .badParam => "badParam"
 
 inductive Basis | mol | wt
   deriving DecidableEq, Repr
@@ -192,6 +193,46 @@ def applyStream (mwf : List α) (basis : Basis) (f : List α → List α) (n : L
   | .mol => f n
   | .wt => List.zipWith (· / ·) (f (List.zipWith (· * ·) n mwf)) mwf
 
+/-! ### Another property package: `reset_chemicals` -/
+
+/-- position in package `idsB` of the chemical at position `j` of package `idsA` (packages are lists of global
+chemical ids) -/
+def remap (idsA idsB : List Nat) (j : Nat) : Option Nat :=
+  match idsA[j]? with
+  | none => none
+  | some g => idsB.idxOf? g
+
+/-- the same for flattened `phase*nchem + chemical` indices -/
+def flatMap (idsA idsB : List Nat) (q : Nat) : Option Nat :=
+  if idsA.length = 0 then none
+  else (remap idsA idsB (q % idsA.length)).map (fun k => (q / idsA.length) * idsB.length + k)
+
+/-- entry `t` of the result is entry `τ t` of `v` (0 where `τ` is undefined) -/
+def gatherV (τ : Nat → Option Nat) (len : Nat) (v : List α) : List α :=
+  (List.range len).map fun t => match τ t with
+    | some j => v.getD j 0
+    | none => 0
+
+/-- some nonzero entry of `v` has no image under `σ` -/
+def missing (σ : Nat → Option Nat) (v : List α) : Bool :=
+  (List.range v.length).any fun j => decide (v.getD j 0 ≠ 0) && (σ j).isNone
+
+/-- `Reaction.reset_chemicals`: every nonzero coefficient is re-indexed (`σ`: old → new, `τ`: new → old), and so
+is the reactant; raises if a chemical that takes part, or the reactant, is missing from the new package -/
+def RVal.reindex (σ τ : Nat → Option Nat) (lenB : Nat) (a : RVal α) : Except Err (RVal α) :=
+  if missing σ a.v then .error .undefinedChemical
+  else match σ a.ridx with
+    | none => .error .undefinedChemical
+    | some r => .ok { a with v := gatherV τ lenB a.v, ridx := r }
+
+/-- `obj(stream)` when the stream is defined over another package: the molar flows are re-indexed onto the
+reaction's package (`reset_chemicals` of the indexer; raises if material of a missing chemical is present),
+reacted there by `f`, and re-indexed back -/
+def applyVia (σ τ : Nat → Option Nat) (lenA : Nat) (f : List α → List α) (nB : List α) : Except Err (List α) :=
+  if missing τ nB then .error .undefinedChemical
+  else if missing σ (f (gatherV σ lenA nB)) then .error .undefinedChemical
+  else .ok (gatherV τ nB.length (f (gatherV σ lenA nB)))
+
 end Values
 
 /-! ### The object store -/
@@ -206,21 +247,31 @@ structure Rxn (α : Type) where
   x : XRef α
   basis : Basis
   ph : Nat
+  pkg : Nat := 0      -- the property package (`_chemicals`) the object is defined over: 0 = the home package
 
 structure RSet where
   rows : List Nat     -- ids of the row arrays (`_stoichiometry` is a list of the members' arrays)
-  xa : Nat            -- id of the `_X` numpy array
+  xa : Nat            -- id of the numpy array that `_X` is (a view of)
   ridxs : List Nat
   basis : Basis
   ph : Nat
+  xoff : Nat := 0     -- `set[i:j]` holds the numpy view `_X[i:j]`: cell `k` of the slice is cell `xoff + k` of `xa`
+  series : Bool := false   -- `SeriesReaction` (else `ParallelReaction`)
+  pkg : Nat := 0
 
 inductive Obj (α : Type)
   | rxn (r : Rxn α)
   | set (s : RSet)
 
+/-- another property package: the global ids of its chemicals, in order, and their molecular weights -/
+structure Pkg (α : Type) where
+  ids : List Nat
+  mw : List α
+
 structure Store (α : Type) where
-  nchem : Nat := 0
+  nchem : Nat := 0        -- the home package (package 0) has the chemicals with global ids `0 … nchem-1`
   mw : List α := []
+  alts : List (Pkg α) := []   -- package `p ≥ 1` is `alts[p-1]`
   arrs : List (List α) := []
   xarrs : List (List α) := []
   objs : List (Obj α) := []
@@ -236,14 +287,17 @@ inductive Op (α : Type)
   | backwards (a : Nat) (reactant : Option Nat) (x : Option α)
   | setBasis (a : Nat) (b : BArg)
   | setX (a : Nat) (x : α)
-  | mkSet (ms : List Nat)
+  | mkSet (series : Bool) (ms : List Nat)
+  | setCopy (s : Nat) (b : BArg)                  -- `set.copy(basis)`
+  | slice (s : Nat) (i : Nat) (j : Nat)           -- `set[i:j]`
   | item (s : Nat) (i : Nat)
   | setSetX (s : Nat) (i : Nat) (x : α)
   | reduce (s : Nat) (order : List Nat)
+  | reset (a : Nat) (p : Nat)                     -- `a.reset_chemicals(package p)`
 
 /-- the in-place forms (`+= -= *= /=`, the `X` and `basis` setters, writing the set's `X`) -/
 def Op.inPlace {α : Type} : Op α → Bool
-  | .iadd .. | .isub .. | .imul .. | .idiv .. | .setBasis .. | .setX .. | .setSetX .. => true
+  | .iadd .. | .isub .. | .imul .. | .idiv .. | .setBasis .. | .setX .. | .setSetX .. | .reset .. => true
   | _ => false
 
 section StoreOps
@@ -251,6 +305,22 @@ variable {α : Type} [Add α] [Sub α] [Mul α] [Div α] [Neg α] [OfNat α 0] [
   [DecidableEq α] [LT α] [DecidableLT α]
 
 def Store.arr (s : Store α) (id : Nat) : List α := s.arrs.getD id []
+
+/-- global chemical ids of package `p` -/
+def Store.idsOf (s : Store α) (p : Nat) : List Nat :=
+  if p = 0 then List.range s.nchem else ((s.alts[p - 1]?).map (·.ids)).getD []
+
+def Store.mwOf (s : Store α) (p : Nat) : List α :=
+  if p = 0 then s.mw else ((s.alts[p - 1]?).map (·.mw)).getD []
+
+def Store.nchemOf (s : Store α) (p : Nat) : Nat := (s.idsOf p).length
+
+/-- package of the reaction object `id` (0 if there is none) -/
+def Store.pkgOf (s : Store α) (id : Nat) : Nat :=
+  match s.objs[id]? with
+  | some (.rxn r) => r.pkg
+  | some (.set t) => t.pkg
+  | none => 0
 
 def Store.getX (s : Store α) : XRef α → α
   | .own x => x
@@ -278,11 +348,26 @@ def Store.optVal (s : Store α) : Option Nat → Except Err (Option (RVal α))
   | none => .ok none
   | some b => do let v ← s.valOf b; pure (some v)
 
+/-- the right operand of `a ± b`, with the `chemicals must be the same` check of `_math_compatible_reaction`
+(reached only when `b` has a reaction) -/
+def Store.optValFor (s : Store α) (a : Nat) : Option Nat → Except Err (Option (RVal α))
+  | none => .ok none
+  | some b =>
+    match s.valOf b with
+    | .error e => .error e
+    | .ok v => if v.hasReaction && decide (s.pkgOf a ≠ s.pkgOf b) then .error .valueError else .ok (some v)
+
+/-- package of the result of a reaction-valued operation: that of its left operand (the constructors build
+over the home package) -/
+def Store.opPkg (s : Store α) : Op α → Nat
+  | .copy a _ | .add a _ | .sub a _ | .mul a _ | .div a _ | .neg a | .backwards a _ _ => s.pkgOf a
+  | _ => 0
+
 /-- A fresh `Reaction` object holding a fresh array: every non-in-place operation ends here. -/
-def Store.newRxn (s : Store α) (a : RVal α) : Store α × Nat :=
+def Store.newRxn (s : Store α) (p : Nat) (a : RVal α) : Store α × Nat :=
   ({ s with arrs := s.arrs ++ [a.v],
             objs := s.objs ++ [.rxn { nu := s.arrs.length, ridx := a.ridx, x := .own a.x,
-                                      basis := a.basis, ph := a.ph }] },
+                                      basis := a.basis, ph := a.ph, pkg := p }] },
    s.objs.length)
 
 /-- the `X` setter: a plain reaction stores the float, an item writes the set's array -/
@@ -304,19 +389,19 @@ def Store.pureOp (s : Store α) : Op α → Option (Except Err (RVal α))
       let v' ← rescale v r
       pure { v := v', ridx := r, x := x, basis := basis, ph := ph })
   | .empty basis c x => some (.ok { v := List.replicate s.nchem 0, ridx := c, x := x, basis := basis, ph := 0 })
-  | .copy a b => some (do (← s.valOf a).copyB s.mw b)
-  | .add a b => some (do (← s.valOf a).addSub s.mw false (← s.optVal b))
-  | .sub a b => some (do (← s.valOf a).addSub s.mw true (← s.optVal b))
+  | .copy a b => some (do (← s.valOf a).copyB (s.mwOf (s.pkgOf a)) b)
+  | .add a b => some (do (← s.valOf a).addSub (s.mwOf (s.pkgOf a)) false (← s.optValFor a b))
+  | .sub a b => some (do (← s.valOf a).addSub (s.mwOf (s.pkgOf a)) true (← s.optValFor a b))
   | .mul a k => some (do pure ((← s.valOf a).smul k))
   | .div a k => some (do (← s.valOf a).sdiv k)
   | .neg a => some (do pure (← s.valOf a).neg)
-  | .backwards a r x => some (do (← s.valOf a).backwards s.nchem r x)
+  | .backwards a r x => some (do (← s.valOf a).backwards (s.nchemOf (s.pkgOf a)) r x)
   | _ => none
 
 /-- members of a set as values (through the set's own arrays) -/
 def Store.setVals (s : Store α) (t : RSet) : List (RVal α) :=
   (List.range t.rows.length).map fun i =>
-    { v := s.arr (t.rows.getD i 0), ridx := t.ridxs.getD i 0, x := (s.xarrs.getD t.xa []).getD i 0,
+    { v := s.arr (t.rows.getD i 0), ridx := t.ridxs.getD i 0, x := (s.xarrs.getD t.xa []).getD (t.xoff + i) 0,
       basis := t.basis, ph := t.ph }
 
 def allEq {β : Type} [DecidableEq β] : List β → Bool
@@ -343,12 +428,12 @@ def Store.iaddSubOp (s : Store α) (sub : Bool) (a : Nat) (b : Option Nat) : Exc
   match s.rxn? a with
   | .error e => .error e
   | .ok ra =>
-    match s.optVal b with
+    match s.optValFor a b with
     | .error e => .error e
     | .ok none => .ok (s, a)
     | .ok (some vb) =>
       if !vb.hasReaction then .ok (s, a)
-      else match (s.val ra).addSub s.mw sub (some vb) with
+      else match (s.val ra).addSub (s.mwOf (s.pkgOf a)) sub (some vb) with
         | .error e => .error e
         | .ok r => .ok (s.rebind a ra r.v r.x, a)
 
@@ -383,7 +468,7 @@ def Store.setBasisOp (s : Store α) (a : Nat) (b : BArg) : Except Err (Store α 
     match ra.x with
     | .shared _ _ => .error .typeError
     | .own _ =>
-      match (s.val ra).copyB s.mw (match b with | .none => .bad | b => b) with
+      match (s.val ra).copyB (s.mwOf ra.pkg) (match b with | .none => .bad | b => b) with
       | .error e => .error e
       | .ok r => .ok ({ s with arrs := s.arrs.set ra.nu r.v,
                                objs := s.objs.set a (.rxn { ra with basis := r.basis }) }, a)
@@ -399,16 +484,17 @@ def Store.rxns? (s : Store α) : List Nat → Except Err (List (Rxn α))
       | .ok rs => .ok (r :: rs)
 
 /-- `ParallelReaction([...])`: the set holds the members' own stoichiometry arrays and a fresh X array -/
-def Store.mkSetOp (s : Store α) (ms : List Nat) : Except Err (Store α × Nat) :=
+def Store.mkSetOp (s : Store α) (series : Bool) (ms : List Nat) : Except Err (Store α × Nat) :=
   match s.rxns? ms with
   | .error e => .error e
   | .ok rs =>
     if rs.isEmpty then .error .valueError
-    else if !allEq (rs.map (·.ph)) then .error .valueError
+    else if !allEq (rs.map (·.ph)) || !allEq (rs.map (·.pkg)) then .error .valueError   -- phases, chemicals
     else if !allEq (rs.map (·.basis)) then .error .valueError
     else
       let t : RSet := { rows := rs.map (·.nu), xa := s.xarrs.length, ridxs := rs.map (·.ridx),
-                        basis := (rs.map (·.basis)).headD .mol, ph := (rs.map (·.ph)).headD 0 }
+                        basis := (rs.map (·.basis)).headD .mol, ph := (rs.map (·.ph)).headD 0,
+                        xoff := 0, series := series, pkg := (rs.map (·.pkg)).headD 0 }
       .ok ({ s with xarrs := s.xarrs ++ [rs.map (fun r => s.getX r.x)],
                     objs := s.objs ++ [.set t] }, s.objs.length)
 
@@ -419,7 +505,8 @@ def Store.itemOp (s : Store α) (sid i : Nat) : Except Err (Store α × Nat) :=
   | .ok t =>
     if i < t.rows.length then
       .ok ({ s with objs := s.objs ++ [.rxn { nu := t.rows.getD i 0, ridx := t.ridxs.getD i 0,
-                                              x := .shared t.xa i, basis := t.basis, ph := t.ph }] },
+                                              x := .shared t.xa (t.xoff + i), basis := t.basis, ph := t.ph,
+                                              pkg := t.pkg }] },
            s.objs.length)
     else .error .indexError
 
@@ -429,7 +516,7 @@ def Store.setSetXOp (s : Store α) (sid i : Nat) (x : α) : Except Err (Store α
   | .error e => .error e
   | .ok t =>
     if i < t.rows.length then
-      .ok ({ s with xarrs := s.xarrs.set t.xa ((s.xarrs.getD t.xa []).set i x) }, sid)
+      .ok ({ s with xarrs := s.xarrs.set t.xa ((s.xarrs.getD t.xa []).set (t.xoff + i) x) }, sid)
     else .error .indexError
 
 /-- `set.reduce()`; `order` is the iteration order of `set(self._reactant_index)` (external parameter,
@@ -438,15 +525,99 @@ def Store.reduceOp (s : Store α) (sid : Nat) (order : List Nat) : Except Err (S
   match s.set? sid with
   | .error e => .error e
   | .ok t =>
-    if !(order.all (fun k => decide (k ∈ t.ridxs)) && t.ridxs.all (fun k => decide (k ∈ order))
+    if t.series then .error .typeError      -- `SeriesReaction.reduce` refuses
+    else if !(order.all (fun k => decide (k ∈ t.ridxs)) && t.ridxs.all (fun k => decide (k ∈ order))
           && decide order.Nodup) then .error .badParam
-    else match reduceVals s.mw (s.setVals t) order with
+    else match reduceVals (s.mwOf t.pkg) (s.setVals t) order with
       | .error e => .error e
       | .ok vs =>
         let t' : RSet := { rows := (List.range vs.length).map (· + s.arrs.length), xa := s.xarrs.length,
-                           ridxs := vs.map (·.ridx), basis := t.basis, ph := t.ph }
+                           ridxs := vs.map (·.ridx), basis := t.basis, ph := t.ph, xoff := 0, series := false,
+                           pkg := t.pkg }
         .ok ({ s with arrs := s.arrs ++ vs.map (·.v), xarrs := s.xarrs ++ [vs.map (·.x)],
                       objs := s.objs ++ [.set t'] }, s.objs.length)
+
+/-- `ReactionSet._rescale` of one row: `row /= -row[index]` (sparse: an empty row is left alone) -/
+def rescaleRow (v : List α) (r : Nat) : Except Err (List α) :=
+  if allZero v then .ok v
+  else if -(v.getD r 0) = 0 then .error .zeroDiv
+  else .ok (v.map (· / -(v.getD r 0)))
+
+/-- `set_reaction_basis` on the rows of a (copied) set -/
+def rebaseRows (mwf : List α) (to : Basis) : List (RVal α) → Except Err (List (RVal α))
+  | [] => .ok []
+  | a :: rest =>
+    match rescaleRow (match to with
+                      | .wt => List.zipWith (· * ·) a.v mwf
+                      | .mol => List.zipWith (· / ·) a.v mwf) a.ridx with
+    | .error e => .error e
+    | .ok v' =>
+      match rebaseRows mwf to rest with
+      | .error e => .error e
+      | .ok vs => .ok ({ a with v := v', basis := to } :: vs)
+
+/-- the basis a copy has to be brought to: `none` = leave as is -/
+def copyTarget (cur : Basis) : BArg → Except Err (Option Basis)
+  | .none => .ok none
+  | .bad => .error .valueError
+  | .mol => .ok (if cur = .mol then none else some .mol)
+  | .wt => .ok (if cur = .wt then none else some .wt)
+
+/-- `set.copy(basis)` (repaired, fixes_proposed/C17-6): a new set with its own row arrays and its own X array -/
+def Store.setCopyOp (s : Store α) (sid : Nat) (b : BArg) : Except Err (Store α × Nat) :=
+  match s.set? sid with
+  | .error e => .error e
+  | .ok t =>
+    match copyTarget t.basis b with
+    | .error e => .error e
+    | .ok tgt =>
+      match (match tgt with
+             | none => Except.ok (s.setVals t)
+             | some to => rebaseRows (mwFlat (s.mwOf t.pkg) t.ph) to (s.setVals t)) with
+      | .error e => .error e
+      | .ok vs =>
+        let t' : RSet := { rows := (List.range vs.length).map (· + s.arrs.length), xa := s.xarrs.length,
+                           ridxs := vs.map (·.ridx), basis := tgt.getD t.basis, ph := t.ph, xoff := 0,
+                           series := t.series, pkg := t.pkg }
+        .ok ({ s with arrs := s.arrs ++ vs.map (·.v), xarrs := s.xarrs ++ [vs.map (·.x)],
+                      objs := s.objs ++ [.set t'] }, s.objs.length)
+
+/-- `set[i:j]` (Python slice clipping): the same row arrays, a view of the same X array -/
+def Store.sliceOp (s : Store α) (sid i j : Nat) : Except Err (Store α × Nat) :=
+  match s.set? sid with
+  | .error e => .error e
+  | .ok t =>
+    let t' : RSet := { rows := (t.rows.take j).drop i, xa := t.xa, ridxs := (t.ridxs.take j).drop i,
+                       basis := t.basis, ph := t.ph, xoff := t.xoff + min i t.rows.length, series := t.series,
+                       pkg := t.pkg }
+    .ok ({ s with objs := s.objs ++ [.set t'] }, s.objs.length)
+
+/-- `a.reset_chemicals(package p)` on a plain reaction: nothing if `a` is already over `p`; otherwise a new
+stoichiometry array (re-indexed) is bound to `a`, and its reactant index and package change.  (Items and sets
+re-index their whole set; that is not modelled.) -/
+def Store.resetOp (s : Store α) (a p : Nat) : Except Err (Store α × Nat) :=
+  match s.objs[a]? with
+  | some (.rxn ra) =>
+    match ra.x with
+    | .shared _ _ => .error .badRef
+    | .own _ =>
+      if ra.pkg = p then .ok (s, a)
+      else if p ≠ 0 ∧ s.alts.length < p then .error .badRef
+      else
+        match (s.val ra).reindex (flatMap (s.idsOf ra.pkg) (s.idsOf p)) (flatMap (s.idsOf p) (s.idsOf ra.pkg))
+                (nrows ra.ph * (s.idsOf p).length) with
+        | .error e => .error e
+        | .ok r => .ok ({ s with arrs := s.arrs ++ [r.v],
+                                 objs := s.objs.set a (.rxn { ra with nu := s.arrs.length, ridx := r.ridx, pkg := p }) }, a)
+  | _ => .error .badRef
+
+/-- `SeriesReaction._reaction`: one reaction after the other on the running material -/
+def series (rs : List (List α × Nat × α)) (n : List α) : List α :=
+  rs.foldl (fun acc (q : List α × Nat × α) => react q.1 q.2.1 q.2.2 acc) n
+
+/-- what calling a set on an array does -/
+def setAct (ser : Bool) (rs : List (List α × Nat × α)) (n : List α) : List α :=
+  if ser then series rs n else parallel rs n
 
 /-- One operation.  Returns the new store and the id of the object the Python expression
 evaluates to (`self` for the in-place forms). -/
@@ -455,7 +626,7 @@ def Store.step (s : Store α) (op : Op α) : Except Err (Store α × Nat) :=
   | some r =>
     match r with
     | .error e => .error e
-    | .ok a => .ok (s.newRxn a)
+    | .ok a => .ok (s.newRxn (s.opPkg op) a)
   | none =>
     match op with
     | .iadd a b => s.iaddSubOp false a b
@@ -464,7 +635,10 @@ def Store.step (s : Store α) (op : Op α) : Except Err (Store α × Nat) :=
     | .idiv a k => s.idivOp a k
     | .setX a x => s.setXOp a x
     | .setBasis a b => s.setBasisOp a b
-    | .mkSet ms => s.mkSetOp ms
+    | .mkSet ser ms => s.mkSetOp ser ms
+    | .setCopy sid b => s.setCopyOp sid b
+    | .slice sid i j => s.sliceOp sid i j
+    | .reset a p => s.resetOp a p
     | .item sid i => s.itemOp sid i
     | .setSetX sid i x => s.setSetXOp sid i x
     | .reduce sid order => s.reduceOp sid order
@@ -474,7 +648,7 @@ def Store.step (s : Store α) (op : Op α) : Except Err (Store α × Nat) :=
 def Store.applyArr (s : Store α) (id : Nat) (n : List α) : Except Err (List α) :=
   match s.objs[id]? with
   | some (.rxn r) => let a := s.val r; .ok (react a.v a.ridx a.x n)
-  | some (.set t) => .ok (parallel ((s.setVals t).map fun a => (a.v, a.ridx, a.x)) n)
+  | some (.set t) => .ok (setAct t.series ((s.setVals t).map fun a => (a.v, a.ridx, a.x)) n)
   | none => .error .badRef
 
 /-- `obj(stream)`: molar flows in, molar flows out; a `wt` reaction works on the mass flows -/
@@ -482,10 +656,24 @@ def Store.applyStr (s : Store α) (id : Nat) (n : List α) : Except Err (List α
   match s.objs[id]? with
   | some (.rxn r) =>
     let a := s.val r
-    .ok (applyStream (mwFlat s.mw a.ph) a.basis (react a.v a.ridx a.x) n)
+    .ok (applyStream (mwFlat (s.mwOf r.pkg) a.ph) a.basis (react a.v a.ridx a.x) n)
   | some (.set t) =>
-    .ok (applyStream (mwFlat s.mw t.ph) t.basis (parallel ((s.setVals t).map fun a => (a.v, a.ridx, a.x))) n)
+    .ok (applyStream (mwFlat (s.mwOf t.pkg) t.ph) t.basis (setAct t.series ((s.setVals t).map fun a => (a.v, a.ridx, a.x))) n)
   | none => .error .badRef
+
+/-- `obj(stream)` for a stream defined over package `p` (plain reactions): directly if that is the object's
+package, else through re-indexing the flows there and back -/
+def Store.applyStrPkg (s : Store α) (id p : Nat) (n : List α) : Except Err (List α) :=
+  match s.objs[id]? with
+  | some (.rxn r) =>
+    let a := s.val r
+    let f := applyStream (mwFlat (s.mwOf r.pkg) a.ph) a.basis (react a.v a.ridx a.x)
+    if r.pkg = p then .ok (f n)
+    else
+      let idsA := s.idsOf r.pkg
+      let idsB := s.idsOf p
+      applyVia (flatMap idsA idsB) (flatMap idsB idsA) (nrows r.ph * idsA.length) f n
+  | _ => .error .badRef
 
 end StoreOps
 
